@@ -943,6 +943,12 @@ fn case_strategy(clients: std::ops::RangeInclusive<usize>, ops: std::ops::RangeI
         1 => Just((2usize, 0usize)),
         2 => Just((3usize, 3usize)),
         1 => Just((3usize, 1usize)),
+        // roomy pools that start (almost) empty: the pool has to grow under the first few
+        // concurrent requests - the path a pre-warmed default pool only takes above 64 in flight
+        1 => Just((16usize, 0usize)),
+        1 => Just((64usize, 1usize)),
+        1 => Just((256usize, 0usize)),
+        1 => Just((256usize, 2usize)),
     ];
     (
         keys,
